@@ -172,6 +172,7 @@ func (w *World) ClockOff() { w.mu.Lock(); w.clockOn = false; w.mu.Unlock() }
 func NewWorld() *World { return NewWorldOn(NewBucket()) }
 
 func NewWorldOn(b *Bucket) *World {
+	Beat() // every execution starts with a fresh world: progress signal for the parent's watchdog
 	curMu.Lock()
 	worldNo++
 	w := &World{B: b, Clients: map[string]*Client{}, handles: map[string]*Handle{}, id: worldNo}
